@@ -538,13 +538,93 @@ theorem let_x3P {P : Program} {hooks : Bool} {prog : AxCut.Prog} {Γ : Ctx} {ρ 
 end Let3
 
 
+section Call3Q
+
+variable {F : Frame} (HF : FrameOK F) {mon : MonCfg} (hmon : mon.mach = F.c)
+  {px : X86.Prog} {cs : List Code} (L : Loaded px cs) (hndL : (labs cs).Nodup)
+
+include hmon L in
+/-- THREE-WAY SIMULATION OF `call` -/
+theorem call_x3Q {P : Program} {hooks : Bool} {prog : AxCut.Prog} {Γ : Ctx} {ρ : List Value} {l : Ident}
+    {args : Ctx} {cfg : Config} {d : Def}
+    (R : RelX P hooks prog ⟨Γ, ρ, .call l args⟩ cfg) (D : DefsAt P hooks prog) (DX : XDefsAt cs hooks prog)
+    (hd : Pos.findDef prog.defs l = some d) (hchi : Pos.chiTys Γ = Pos.chiTys d.ctx)
+    {hs : HState} {ι : Nat → Nat} {st : State} (X : X3 F Γ cfg hs ι st)
+    {kx kx' : Nat} {items : List Code}
+    (hrunX : (codeStatementR x86Backend hooks natRen prog.types (.call l args) Γ).run kx = .ok (items, kx'))
+    (hatX : XAt cs st.pc items) :
+    ∃ cfg' st' m, stepsTo P 1 cfg cfg' ∧ stepN mon px m st = .inl st' ∧ 1 ≤ m ∧
+      cfg'.out = cfg.out ∧ cfg'.next = cfg.next ∧
+      RelX P hooks prog ⟨d.ctx, ρ, d.body⟩ cfg' ∧ X3 F d.ctx cfg' hs ι st' ∧
+      ∃ k1 k1' items', (codeStatementR x86Backend hooks natRen prog.types d.body d.ctx).run k1 = .ok (items', k1') ∧
+        XAt cs st'.pc items' := by
+  obtain ⟨cfg', hst, hout, hnext, R'⟩ := sim2_call R D hd hchi
+  have hstep := stepsTo_one_inv hst
+  have J : JumpFacts cfg cfg' := by
+    obtain ⟨c, c', ops, hrun, hat⟩ := R.code
+    simp only [codeStatementR, run_pure_ok] at hrun
+    obtain ⟨rfl, rfl⟩ := hrun
+    simp only [mockSym_comment, mockSym_jumpLabel, List.append_assoc, CodeAt_hook] at hat
+    simp only [List.cons_append, List.nil_append, CodeAt] at hat
+    exact step_jumpLabel_facts hat.1 hstep
+  have hmem : d ∈ prog.defs := List.mem_of_find?_eq_some hd
+  have hname : d.name = l := by
+    have := List.find?_some hd
+    exact Ident.eq_of_beq this
+  obtain ⟨i, k1, k1', ditems, hidx, hlab, hdrun, hdat⟩ := DX d hmem
+  -- the x86 code
+  simp only [codeStatementR, run_pure_ok] at hrunX
+  obtain ⟨rfl, rfl⟩ := hrunX
+  generalize hc0 : hookCode x86Backend hooks Γ ++ [x86Backend.comment (l.print ++ "(...)")] = c0 at hatX
+  have hc0c : ∀ y ∈ c0, ∃ m', y = Code.COMMENT m' := by rw [← hc0]; exact hook_comments hooks Γ _
+  replace hatX : XAt cs st.pc (c0 ++ [Code.JMPL (l.print ++ "_")]) := hatX
+  obtain ⟨k0, hk0⟩ := x_steps_straight mon L hatX.left
+    (execStraight_comments mon.mach px.labelAddr c0 st hc0c)
+  have X0 : X3 F Γ cfg hs ι (setPS st (st.pc + c0.length) k0) := X3R.setPS X _ _
+  obtain ⟨csa, csb, hcs, hpcA⟩ := hatX.right
+  obtain ⟨k2, hk2⟩ := Scc.X86.Ref.step_jump mon L (cs1 := csa) (code := Code.JMPL (l.print ++ "_")) (rest := csb)
+    (s := setPS st (st.pc + c0.length) k0) (by rw [hcs]; simp [List.append_assoc]) (by simp [setPS]; exact hpcA.symm)
+    (show execCode mon.mach px.labelAddr (Code.JMPL (l.print ++ "_")) _ = .ok (_, .jumpLabel (l.print ++ "_")) from rfl)
+    (by rw [← hname]; exact hidx)
+  -- the label of the definition
+  have hsplit : cs = cs.take i ++ Code.LAB (d.name.print ++ "_") :: cs.drop (i + 1) := by
+    have hlt : i < cs.length := by
+      rcases Nat.lt_or_ge i cs.length with h | h
+      · exact h
+      · rw [List.getElem?_eq_none h] at hlab; cases hlab
+    have h1 : cs.drop i = cs[i] :: cs.drop (i + 1) := List.drop_eq_getElem_cons hlt
+    have h2 : cs[i] = Code.LAB (d.name.print ++ "_") := by
+      rw [List.getElem?_eq_getElem hlt] at hlab; exact Option.some.inj hlab
+    conv => lhs; rw [← List.take_append_drop i cs, h1, h2]
+  have hilt : i < cs.length := by
+    rcases Nat.lt_or_ge i cs.length with h | h
+    · exact h
+    · rw [List.getElem?_eq_none h] at hlab; cases hlab
+  obtain ⟨k3, hk3⟩ := step_fall mon L hsplit (s := setPS (setPS st (st.pc + c0.length) k0) i k2)
+    (by simp [setPS, Nat.min_eq_left (Nat.le_of_lt hilt)])
+    (show execCode mon.mach px.labelAddr (Code.LAB (d.name.print ++ "_")) _ = .ok (_, .next) from rfl)
+  have hkeys : Γ.map (·.chi) = d.ctx.map (·.chi) := by
+    have := congrArg (List.map Prod.fst) hchi
+    simp only [Pos.chiTys, List.map_map] at this
+    exact this
+  refine ⟨cfg', _, _, hst, stepN_trans mon px hk0 (stepN_trans mon px ((stepN_one mon px _).trans hk2)
+    ((stepN_one mon px _).trans hk3)), by omega, hout, hnext, R', ?_, _, _, ditems, hdrun, ?_⟩
+  · exact X3R.setPS (X3R.setPS ((X0.jump J).ctxCongr hkeys) _ _) _ _
+  · have : (setPS (setPS (setPS st (st.pc + c0.length) k0) i k2) ((cs.take i).length + 1) k3).pc = i + 1 := by
+      simp [setPS, Nat.min_eq_left (Nat.le_of_lt hilt)]
+    rw [this]
+    exact hdat
+
+end Call3Q
+
 /-- the three-way simulation claim for one step of the positional machine -/
 def StepSim3P (F : Frame) (mon : MonCfg) (px : X86.Prog) (cs : List Code) (P : Program) (hooks : Bool)
     (prog : AxCut.Prog) (st : Pos.State) (cfg : Config) (hs : HState) (X : State) : Prop :=
   match Pos.step prog st with
   | .next st' o =>
     WithinCapacity st'.ctx → 2 * st'.ctx.length ≤ 266 →
-    ∃ cfg' hs' X' n, stepN mon px n X = .inl X' ∧ cfg'.out = outAfter o cfg.out ∧ cfg'.next ≤ cfg.next + 1 ∧
+    ∃ cfg' hs' X' n, stepN mon px n X = .inl X' ∧ (∀ l a, st.stmt = .call l a → 1 ≤ n) ∧
+      cfg'.out = outAfter o cfg.out ∧ cfg'.next ≤ cfg.next + 1 ∧
       FrLe hs hs' (64 * stmtArity st.stmt) ∧ FrPk hs hs' ∧ Rel3 F cs P hooks prog st' cfg' hs' X' ∧ StmtOK st'.stmt
   | .done v => ∃ n XL, stepN mon px n X = .inl XL ∧ step mon px XL = .inr (.done v) ∧ XL.out = cfg.out
   | .stuck _ => True
@@ -587,7 +667,7 @@ theorem step3P (hooks : Bool) (prog : AxCut.Prog) (c : Nat) (code : List MockOp)
     intro hcap hcap2
     obtain ⟨cfg', X', m, h1, hm, h2, h3, h4, h5, h6⟩ := lit_x3 HF hmon L RX (mem_ids_keys hk hfr)
       (by simp [WithinCapacity] at hcap; omega) X3h hrunX hatX hok.2.1
-    exact ⟨cfg', hs, X', m, hm, h2, by omega, FrLe.refl' hs, FrPk.refl hs,
+    exact ⟨cfg', hs, X', m, hm, (fun _ _ e => by cases e), h2, by omega, FrLe.refl' hs, FrPk.refl hs,
       ⟨Γ' ++ [⟨x, .ext, .i64⟩], ι, keys_append hk rfl, h4, h5, h6⟩, hok.1, hok.2.2⟩
   | op hn ha hb hfr hnext =>
     rename_i x a o b next fv
@@ -606,7 +686,7 @@ theorem step3P (hooks : Bool) (prog : AxCut.Prog) (c : Nat) (code : List MockOp)
           obtain ⟨cfg', X', m, h1, hm, h2, h3, h4, h5, h6⟩ := op_x3 HF hmon L RX (mem_ids_keys hk hfr)
             (by simp [WithinCapacity] at hcap; omega)
             (by rw [readInt_keys hk]; exact hra) (by rw [readInt_keys hk]; exact hrb) hv X3h hrunX hatX
-          exact ⟨cfg', hs, X', m, hm, h2, by omega, FrLe.refl' hs, FrPk.refl hs,
+          exact ⟨cfg', hs, X', m, hm, (fun _ _ e => by cases e), h2, by omega, FrLe.refl' hs, FrPk.refl hs,
             ⟨Γ' ++ [⟨x, .ext, .i64⟩], ι, keys_append hk rfl, h4, h5, h6⟩, hok.1, hok.2⟩
   | print hn ha hnext =>
     rename_i nl a next fv
@@ -618,7 +698,7 @@ theorem step3P (hooks : Bool) (prog : AxCut.Prog) (c : Nat) (code : List MockOp)
       intro _ _
       obtain ⟨cfg', X', m, h1, hm, h2, h3, h4, h5, h6⟩ := print_x3 HF hmon L RX
         (by rw [readInt_keys hk]; exact hra) X3h hrunX hatX
-      exact ⟨cfg', hs, X', m, hm, h2, by omega, FrLe.refl' hs, FrPk.refl hs, ⟨Γ', ι, hk, h4, h5, h6⟩, hok.1, hok.2⟩
+      exact ⟨cfg', hs, X', m, hm, (fun _ _ e => by cases e), h2, by omega, FrLe.refl' hs, FrPk.refl hs, ⟨Γ', ι, hk, h4, h5, h6⟩, hok.1, hok.2⟩
   | ifc hn ha hb ht he =>
     rename_i srt a b t e
     simp only [Pos.step]
@@ -631,7 +711,7 @@ theorem step3P (hooks : Bool) (prog : AxCut.Prog) (c : Nat) (code : List MockOp)
         intro _ _
         obtain ⟨cfg', X', m, h1, hm, h2, h3, h4, h5, h6⟩ := ifc_x3 HF hmon L hndL (b := none) (vb := 0) RX
           (by rw [readInt_keys hk]; exact hra) rfl X3h hrunX hatX
-        refine ⟨cfg', hs, X', m, hm, h2, by omega, FrLe.refl' hs, FrPk.refl hs, ⟨Γ', ι, hk, h4, h5, h6⟩, ?_, ?_⟩
+        refine ⟨cfg', hs, X', m, hm, (fun _ _ e => by cases e), h2, by omega, FrLe.refl' hs, FrPk.refl hs, ⟨Γ', ι, hk, h4, h5, h6⟩, ?_, ?_⟩
         · show DataStmt (if Pos.evalCmp srt va 0 then t else e)
           split
           · exact hok.1.1
@@ -650,7 +730,7 @@ theorem step3P (hooks : Bool) (prog : AxCut.Prog) (c : Nat) (code : List MockOp)
           obtain ⟨cfg', X', m, h1, hm, h2, h3, h4, h5, h6⟩ := ifc_x3 HF hmon L hndL (b := some b') (vb := vb) RX
             (by rw [readInt_keys hk]; exact hra) (by simp only; rw [readInt_keys hk]; exact hrb)
             X3h hrunX hatX
-          refine ⟨cfg', hs, X', m, hm, h2, by omega, FrLe.refl' hs, FrPk.refl hs, ⟨Γ', ι, hk, h4, h5, h6⟩, ?_, ?_⟩
+          refine ⟨cfg', hs, X', m, hm, (fun _ _ e => by cases e), h2, by omega, FrLe.refl' hs, FrPk.refl hs, ⟨Γ', ι, hk, h4, h5, h6⟩, ?_, ?_⟩
           · show DataStmt (if Pos.evalCmp srt va vb then t else e)
             split
             · exact hok.1.1
@@ -682,10 +762,10 @@ theorem step3P (hooks : Bool) (prog : AxCut.Prog) (c : Nat) (code : List MockOp)
           by_cases h : Pos.chiTys Γ = Pos.chiTys d.ctx
           · exact h
           · exact absurd (Or.inl h) hsh
-        obtain ⟨cfg', X', m, h1, hm, h2, h3, h4, h5, h6⟩ := call_x3 hmon L RX D DX hd
+        obtain ⟨cfg', X', m, h1, hm, hm1, h2, h3, h4, h5, h6⟩ := call_x3Q hmon L RX D DX hd
           (by rw [keys_chiTys hk]; exact hchi) X3h hrunX hatX
         have hdm : d ∈ prog.defs := List.mem_of_find?_eq_some hd
-        exact ⟨cfg', hs, X', m, hm, h2, by omega, FrLe.refl' hs, FrPk.refl hs, ⟨d.ctx, ι, rfl, h4, h5, h6⟩,
+        exact ⟨cfg', hs, X', m, hm, (fun _ _ _ => hm1), h2, by omega, FrLe.refl' hs, FrPk.refl hs, ⟨d.ctx, ι, rfl, h4, h5, h6⟩,
           (hprog.2 d hdm).1, (hprog.2 d hdm).2⟩
   | subst hn hhas hnew hnext =>
     rename_i pairs next
@@ -708,7 +788,7 @@ theorem step3P (hooks : Bool) (prog : AxCut.Prog) (c : Nat) (code : List MockOp)
         (nodup_keys hk hn) hnew' hold
         (by simpa [WithinCapacity] using hcap) (by rw [build_keys hk]; exact hb) X3h hrunX hatX
         (by omega) hpl
-      exact ⟨cfg', hs', X', m, hm, h2, by omega, FrLe.mono' hfr (by omega), FrPk.of_frLe0 hfr,
+      exact ⟨cfg', hs', X', m, hm, (fun _ _ e => by cases e), h2, by omega, FrLe.mono' hfr (by omega), FrPk.of_frLe0 hfr,
         ⟨pairs.map (·.1), ι, rfl, h4, h5, h6⟩, hok.1, hok.2.2⟩
   | @letS _ Γ0 Γa x ty tag args sig next fv hn hsplit hkeys hs hs' hfr hnext =>
     have hlenA : Γa.length = args.length := keys_length hkeys
@@ -751,7 +831,7 @@ theorem step3P (hooks : Bool) (prog : AxCut.Prog) (c : Nat) (code : List MockOp)
             simp only [WithinCapacity, htake, List.length_append, List.length_singleton] at hcap
             rw [hlenk, hn0]; exact hcap) hheap X3h hrunX hatX
           (by simpa only [stmtArity] using hroom) hfitT
-        refine ⟨cfg', hs', X', m, hm, h2, h3, (by simpa only [stmtArity] using hfr), hpk,
+        refine ⟨cfg', hs', X', m, hm, (fun _ _ e => by cases e), h2, h3, (by simpa only [stmtArity] using hfr), hpk,
           ⟨_, ι', ?_, by rw [hlenk] at h4; exact h4, by rw [hlenk] at h5; exact h5, by rw [hlenk] at h6; exact h6⟩,
           hok.1, hok.2⟩
         show Ctx.keys (Γ'.take (Γ.length - args.length) ++ [_]) =
@@ -798,7 +878,7 @@ theorem step3P (hooks : Bool) (prog : AxCut.Prog) (c : Nat) (code : List MockOp)
         (by
           simp only [List.length_append] at hcap2
           rw [keys_length hk0]; exact hcap2)
-      exact ⟨cfg', hs', X', m, hm, h2, by omega, FrLe.mono' hfr' (by omega), FrPk.of_frLe0 hfr',
+      exact ⟨cfg', hs', X', m, hm, (fun _ _ e => by cases e), h2, by omega, FrLe.mono' hfr' (by omega), FrPk.of_frLe0 hfr',
         ⟨Γ0' ++ cl.ctx, ι, keys_append hk0 rfl, h4, h5, h6⟩,
         dataClauses_nth hok.1 hc1, clausesB_nth hok.2 hc1⟩
   | @invoke _ Γa b x tag ty args sig hn hsplit hb hs hs' =>
